@@ -639,3 +639,92 @@ pub fn describe(db: &Db) -> String {
     }
     s
 }
+
+// ---------------------------------------------------------------------------------------------
+// FakeIrrd on a loopback TCP socket (for the `bgpfu` executable, which runs as a child process)
+// ---------------------------------------------------------------------------------------------
+
+/// Serve `state` on 127.0.0.1:<ephemeral port> until `stop` is set. Returns the port and the
+/// server thread. Responses are written in seeded pieces (`seg_rng`), queries are answered as
+/// they are parsed, so pipelined queries work like on a real IRRd.
+pub fn serve_tcp(state: SharedIrr, stop: Arc<std::sync::atomic::AtomicBool>) -> std::io::Result<(u16, std::thread::JoinHandle<()>)> {
+    use std::io::{Read, Write};
+    use std::sync::atomic::Ordering;
+    let listener = std::net::TcpListener::bind("127.0.0.1:0")?;
+    listener.set_nonblocking(true)?;
+    let port = listener.local_addr()?.port();
+    let t = std::thread::spawn(move || {
+        while !stop.load(Ordering::Relaxed) {
+            let (mut sock, _) = match listener.accept() {
+                Ok(x) => x,
+                Err(e) if e.kind() == std::io::ErrorKind::WouldBlock => {
+                    std::thread::sleep(std::time::Duration::from_millis(1));
+                    continue;
+                }
+                Err(_) => break,
+            };
+            let _ = sock.set_nonblocking(false);
+            let _ = sock.set_nodelay(true);
+            let _ = sock.set_read_timeout(Some(std::time::Duration::from_millis(50)));
+            {
+                let mut st = state.lock().unwrap();
+                st.connections += 1;
+                if st.refuse {
+                    continue; // dropped: the client sees EOF / reset
+                }
+            }
+            let mut inbuf: Vec<u8> = Vec::new();
+            let mut buf = [0u8; 4096];
+            'conn: loop {
+                if stop.load(Ordering::Relaxed) {
+                    break;
+                }
+                let n = match sock.read(&mut buf) {
+                    Ok(0) => break,
+                    Ok(n) => n,
+                    Err(e) if matches!(e.kind(), std::io::ErrorKind::WouldBlock | std::io::ErrorKind::TimedOut) => continue,
+                    Err(_) => break,
+                };
+                inbuf.extend_from_slice(&buf[..n]);
+                while let Some(p) = inbuf.iter().position(|b| *b == b'\n') {
+                    let line: Vec<u8> = inbuf.drain(..=p).collect();
+                    let line = String::from_utf8_lossy(&line[..line.len() - 1]).into_owned();
+                    let (resp, quit, dead, pieces) = {
+                        let mut st = state.lock().unwrap();
+                        let resp = st.answer(line.trim_end_matches('\r'));
+                        st.bytes_out += resp.len();
+                        // cut the response into seeded pieces
+                        let mut cuts = Vec::new();
+                        if let (m, Some(r)) = (st.seg_mode, &mut st.seg_rng) {
+                            if m != 0 && resp.len() > 1 {
+                                for _ in 0..(r.next() % 4) {
+                                    cuts.push(1 + (r.next() as usize % (resp.len() - 1)));
+                                }
+                            }
+                        }
+                        cuts.sort_unstable();
+                        cuts.dedup();
+                        (resp, line == "!q", st.dead, cuts)
+                    };
+                    if dead {
+                        // connection reset: SO_LINGER 0 makes close() send RST
+                        let _ = sock.shutdown(std::net::Shutdown::Both);
+                        break 'conn;
+                    }
+                    let mut at = 0;
+                    for c in pieces.into_iter().chain(std::iter::once(resp.len())) {
+                        if sock.write_all(&resp.as_bytes()[at..c]).is_err() {
+                            break 'conn;
+                        }
+                        let _ = sock.flush();
+                        at = c;
+                    }
+                    if quit {
+                        break 'conn;
+                    }
+                }
+            }
+        }
+    });
+    Ok((port, t))
+}
